@@ -432,7 +432,7 @@ def ensure_views() -> None:
 
 
 def worker_task(task: dict) -> dict:
-    isolate.worker_guard(6000)
+    isolate.worker_guard()
     ensure_views()
     vseed, tier = task["vseed"], task["tier"]
     st = {"runs": 0, "ops": 0, "aborts_planned": 0, "aborts_fired": {}, "abort_sites": {}, "exc": {},
@@ -820,7 +820,8 @@ def main() -> int:
                          "warm_process_state_histories": agg["warm"]},
         "abort_sites_by_file": abort_sites,
         "exception_classes_seen": exc,
-        "probes": dict(probes, registry_or_object_additions_seen=agg["additions"] + agg["obj_additions"]),
+        "probes": dict(probes, registry_or_object_additions_seen=agg["additions"] + agg["obj_additions"],
+                       registry_values_no_view_could_inspect=len(state.OPAQUE)),
         "components": {"real": ["schwifty (tree under test)", "pycountry", "rstr", "re", "json", "bundled registries"],
                        "stub": ["call sequence / mid-call aborts (sys.monitoring LINE callback raising SimAbort or MemoryError)"]},
         "violations_seen": agg["violation_count"],
@@ -836,7 +837,12 @@ def main() -> int:
     print(f"C15 {args.tier}: histories={agg['runs']} ops={agg['ops']} states={len(states)} transitions={len(transitions)} "
           f"nontrivial={len(nontrivial)} aborts_fired={sum(fired.values())} deep={agg['deep_checked']} fresh={fresh_checked} "
           f"violations_seen={agg['violation_count']} unlisted_classes={unlisted} wall={wall:.1f}s")
-    return core.EXIT_VIOLATION if unlisted else core.EXIT_OK
+    if unlisted:
+        return core.EXIT_VIOLATION
+    if probes.get("tasks_cut_short_by_wall_clock_cap"):
+        raise core.HarnessError("incomplete exploration: the wall-clock safety cap cut tasks short; a truncated run is "
+                                "never reported as a pass (raise VERIF_WALL_CAP or lower --runs)")
+    return core.EXIT_OK
 
 
 def _fresh_all(wp, chosen):
